@@ -1000,4 +1000,161 @@ theorem flat_assignNoise (c : Circuit) (seq : List Nat) (cf : Circuit) (hwf : c.
     have hr' : r ∈ c.regs := (mem_regs_iff c r).mpr ((mem_qregs c r).mp hr).1
     rw [List.nil_append, hlin'.2 r hr']
 
+/-! ### unwrap_nodes -/
+
+theorem dropI_append (a b : List G1) : dropI (a ++ b) = dropI a ++ dropI b := by simp [dropI]
+
+theorem ins_at_length (X Y : List Nat) (k : Nat) : ins (X ++ Y) X.length k = X ++ k :: Y := by simp [ins]
+
+theorem not_mem_of_nodup_middle {X B : List Nat} {n : Nat} (h : (X ++ n :: B).Nodup) : n ∉ X ∧ n ∉ B := by
+  rw [List.nodup_append] at h
+  obtain ⟨_, h2, h3⟩ := h
+  exact ⟨fun hx => h3 n hx n List.mem_cons_self rfl, (List.nodup_cons.mp h2).1⟩
+
+/-- state of unwrapping the wrapper `n` on wire `r`: the new base gates `ks` sit directly before `n` -/
+structure UnwrapInv (c c' : Circuit) (n : Nat) (r : Reg) (opn : Op) (A B ks : List Nat) (done : List G1) : Prop where
+  wf : c'.WF
+  hne : c'.ne = c.ne
+  hnp : c'.np = c.np
+  hnc : c'.nc = c.nc
+  noden : c'.node n = some opn
+  wire : c'.wire r = A ++ ks ++ n :: B
+  other : ∀ r', r' ≠ r → c'.wire r' = c.wire r'
+  old : ∀ m, m ≤ c.nid → c'.node m = c.node m
+  nid : c.nid ≤ c'.nid
+  fks : c'.F ks = (dropI done).map Item.g
+
+theorem unwrap_step (c c' : Circuit) (n : Nat) (r : Reg) (opn : Op) (A B ks : List Nat) (done : List G1) (g : G1)
+    (hq : opn.q = [r]) (h : UnwrapInv c c' n r opn A B ks done) :
+    UnwrapInv c (c'.insertAt (Op.base1 g r) [⟨r, (c'.wire r).idxOf n⟩]) n r opn A B (ks ++ [c'.nid + 1]) (done ++ [g]) := by
+  obtain ⟨hwf, hne, hnp, hnc, hnoden, hwire, hother, hold, hnid, hfks⟩ := h
+  have hrv := hwf.qvalid n opn hnoden r (by rw [hq]; exact List.mem_singleton.mpr rfl)
+  have hnle : n ≤ c'.nid := (hwf.bound n opn hnoden).2
+  have hnd := hwf.nodup r
+  rw [hwire] at hnd
+  have hnot := (not_mem_of_nodup_middle hnd).1
+  have hidx : (c'.wire r).idxOf n = (A ++ ks).length := by
+    rw [hwire, List.idxOf_append, if_neg hnot]; simp
+  have hes : (([⟨r, (c'.wire r).idxOf n⟩] : List Edge).map (·.r)).Nodup := by simp
+  have hw' : (c'.insertAt (Op.base1 g r) [⟨r, (c'.wire r).idxOf n⟩]).wire r = A ++ (ks ++ [c'.nid + 1]) ++ n :: B := by
+    have := insertAt_wire_of_mem c' (Op.base1 g r) [⟨r, (c'.wire r).idxOf n⟩] hes ⟨r, (c'.wire r).idxOf n⟩ (List.mem_singleton.mpr rfl)
+    simp only at this
+    rw [this, hidx, hwire, ins_at_length]
+    simp
+  refine ⟨?_, ?_, ?_, ?_, ?_, hw', ?_, ?_, ?_, ?_⟩
+  · refine WF_insertAt c' _ _ hwf hes ?_ ?_ ?_ ?_
+    · intro e he; simp only [List.mem_singleton] at he; subst he; exact hrv.1
+    · intro r' _; simp [Op.base1]
+    · intro i hi
+      simp only [List.map_cons, List.map_nil, List.mem_singleton] at hi
+      exact absurd (by rw [← hi]) hrv.2
+    · intro r' hr'
+      simp only [Op.base1, List.mem_singleton] at hr'
+      subst hr'; exact hrv
+  · rw [insertAt_ne]; exact hne
+  · rw [insertAt_np]; exact hnp
+  · rw [insertAt_nc]; exact hnc
+  · rw [insertAt_node, if_neg (by omega)]; exact hnoden
+  · intro r' hr'
+    rw [insertAt_wire_of_not_mem c' _ _ r' (by simpa using hr')]
+    exact hother r' hr'
+  · intro m hm
+    rw [insertAt_node, if_neg (by omega)]
+    exact hold m hm
+  · rw [insertAt_nid]; omega
+  · rw [F_append, dropI_append, List.map_append]
+    congr 1
+    · rw [← hfks]
+      apply F_congr
+      intro m hm
+      have : m ∈ c'.wire r := by rw [hwire]; simp [hm]
+      have := hwf.wire_le this
+      rw [insertAt_node, if_neg (by omega)]
+    · rw [F_single_some _ _ (Op.base1 g r) (by rw [insertAt_node, if_pos rfl])]
+      rfl
+
+theorem unwrap_fold (c : Circuit) (n : Nat) (r : Reg) (opn : Op) (A B : List Nat) (hq : opn.q = [r]) (gl : List G1)
+    (c' : Circuit) (ks : List Nat) (done : List G1) (h : UnwrapInv c c' n r opn A B ks done) :
+    ∃ ks', UnwrapInv c (gl.foldl (fun c'' g => c''.insertAt (Op.base1 g r) [⟨r, (c''.wire r).idxOf n⟩]) c')
+      n r opn A B ks' (done ++ gl) := by
+  induction gl generalizing c' ks done with
+  | nil => exact ⟨ks, by simpa using h⟩
+  | cons g gl ih =>
+    simp only [List.foldl_cons]
+    obtain ⟨ks', h'⟩ := ih _ _ _ (unwrap_step c c' n r opn A B ks done g hq h)
+    exact ⟨ks', by simpa using h'⟩
+
+theorem filter_ne_of_not_mem (l : List Nat) (n : Nat) (h : n ∉ l) : l.filter (fun m => m ≠ n) = l := by
+  rw [List.filter_eq_self]
+  intro m hm
+  simp only [ne_eq, decide_not, Bool.not_eq_eq_eq_not, Bool.not_true, decide_eq_false_iff_not]
+  rintro rfl
+  exact h hm
+
+/-- unwrapping one wrapper node keeps well-formedness and `flat` -/
+theorem unwrapNode_spec (c : Circuit) (n : Nat) (hwf : c.WF) : (c.unwrapNode n).WF ∧ (c.unwrapNode n).flat = c.flat := by
+  unfold Circuit.unwrapNode
+  split
+  · rename_i gs r cr fx hnode
+    obtain ⟨A, B, hAB⟩ := List.append_of_mem ((hwf.qwire n _ hnode r (hwf.qvalid n _ hnode r (List.mem_singleton.mpr rfl)).2).mpr
+      (List.mem_singleton.mpr rfl))
+    have h0 : UnwrapInv c c n r ⟨.wrapper gs, [r], cr, fx⟩ A B [] [] :=
+      ⟨hwf, rfl, rfl, rfl, hnode, by simpa using hAB, fun _ _ => rfl, fun _ _ => rfl, Nat.le_refl _, rfl⟩
+    obtain ⟨ks, hinv⟩ := unwrap_fold c n r _ A B rfl (unwrapList gs) c [] [] h0
+    simp only [List.nil_append] at hinv
+    generalize (unwrapList gs).foldl (fun c'' g => c''.insertAt (Op.base1 g r) [⟨r, (c''.wire r).idxOf n⟩]) c = c' at hinv
+    obtain ⟨hwf', hne, hnp, hnc, hnoden, hwire, hother, hold, hnid, hfks⟩ := hinv
+    refine ⟨WF_removeOp c' n hwf', ?_⟩
+    refine flat_eq_of hne hnp hnc (fun r' hr' => ?_)
+    rw [flatWire_eq_F, flatWire_eq_F]
+    have hnd := hwf'.nodup r
+    rw [hwire] at hnd
+    obtain ⟨hn1, hn2⟩ := not_mem_of_nodup_middle hnd
+    have holdF : ∀ l : List Nat, (∀ m, m ∈ l → m ≤ c.nid ∧ m ≠ n) → (c'.removeOp n).F l = c.F l := by
+      intro l hl
+      apply F_congr
+      intro m hm
+      rw [removeOp_node, if_neg (hl m hm).2]
+      exact hold m (hl m hm).1
+    by_cases hrr : r' = r
+    · subst hrr
+      have hw : (c'.removeOp n).wire r' = A ++ ks ++ B := by
+        show (c'.wire r').filter (fun m => m ≠ n) = _
+        rw [hwire, List.filter_append, List.filter_cons_of_neg (by simp), filter_ne_of_not_mem _ n hn1,
+          filter_ne_of_not_mem _ n hn2]
+      rw [hw, hAB, F_append, F_append, F_append, F_cons c n B, F_single_some c n _ hnode]
+      have hA : ∀ m, m ∈ A → m ≤ c.nid ∧ m ≠ n := fun m hm =>
+        ⟨hwf.wire_le (by rw [hAB]; simp [hm]), fun h => hn1 (by rw [← h]; simp [hm])⟩
+      have hB : ∀ m, m ∈ B → m ≤ c.nid ∧ m ≠ n := fun m hm =>
+        ⟨hwf.wire_le (by rw [hAB]; simp [hm]), fun h => hn2 (by rw [← h]; exact hm)⟩
+      have : (c'.removeOp n).F ks = c'.F ks := by
+        apply F_congr
+        intro m hm
+        rw [removeOp_node, if_neg (fun h => hn1 (by rw [← h]; simp [hm]))]
+      rw [holdF A hA, holdF B hB, this, hfks, List.append_assoc]
+      rfl
+    · have hnotin : n ∉ c.wire r' := by
+        intro h
+        have := (hwf.qwire n _ hnode r' (qregs_ty c r' hr')).mp h
+        simp only [List.mem_singleton] at this
+        exact hrr this
+      have hw : (c'.removeOp n).wire r' = c.wire r' := by
+        show (c'.wire r').filter (fun m => m ≠ n) = _
+        rw [hother r' hrr, filter_ne_of_not_mem _ n hnotin]
+      rw [hw]
+      exact holdF _ (fun m hm => ⟨hwf.wire_le hm, fun h => hnotin (h ▸ hm)⟩)
+  · exact ⟨hwf, rfl⟩
+
+/-- `flat (unwrap_nodes c) = flat c`, whatever the iteration order of `node_dict["OneQubitGateWrapper"]` -/
+theorem flat_unwrapNodes (c : Circuit) (order : List Nat) (hwf : c.WF) :
+    (c.unwrapNodes order).WF ∧ (c.unwrapNodes order).flat = c.flat := by
+  unfold Circuit.unwrapNodes
+  induction order generalizing c with
+  | nil => exact ⟨hwf, rfl⟩
+  | cons n order ih =>
+    simp only [List.foldl_cons]
+    obtain ⟨h1, h2⟩ := unwrapNode_spec c n hwf
+    obtain ⟨h3, h4⟩ := ih (c.unwrapNode n) h1
+    exact ⟨h3, by rw [h4, h2]⟩
+
 end Graphiq.Wire
